@@ -103,7 +103,7 @@ def jobs(tier):
                     continue
                 masks = [[], sorted(t['types'])] if q else list(T.sync_masks(t, 'all' if len(t['types']) <= 2 else 'extremes'))
                 for sync in masks:
-                    for cache in ((True,) if q else (True, False)):
+                    for cache in ((True, False) if (not q or kind == 'early') else (True,)):
                         cfg = {'until': 3, 'K': 3, 'cache': cache, 'lazy': True, 'D': 0, 'sync': sync, 'salt': 0}
                         if name == 'weak2':
                             cfg.update({'no_self': ['A', 'B'], 'until': 2, 'K': 3 if q else 4})
